@@ -426,8 +426,8 @@ func c16HistRecordCase(i int, raw []byte) Result {
 		for _, a := range []string{"eh", "ef"} {
 			if a == "eh" && d.Hdr == 1 || a == "ef" && d.Ftr == 1 {
 				at := rnd.Intn(len(d.Body) + 1)
-				if at > 0 && at < len(d.Body) && d.Body[at].K == "LI" && d.Body[at].How == "cont" {
-					continue // (would cut an item from its continuation paragraph)
+				for at < len(d.Body) && d.Body[at].K == "LI" {
+					at++ // never inside a list run (it would cut an item from its continuation paragraph)
 				}
 				echo := wpw.Block{K: "P", Ch: []wpw.Child{{W: "r", A: []string{a}}}, Tb: wpw.Tbl{Hm: [][]int{}, Vm: [][]int{}, Mp: [][]int{}, Rc: [][]int{}}}
 				d.Body = append(d.Body[:at], append([]wpw.Block{echo}, d.Body[at:]...)...)
